@@ -802,7 +802,7 @@ def check(run: Run, prog: Program):
                  "mutation_sites": sum(len(fa.mutations) for fa in an.fa.values()),
                  "memoised_bindings_checked": n_cached_bind,
                  "restore_pairs": n_pairs // 2}
-    run.floor("functions analysed", len(an.fa), 600)
+    run.floor("functions analysed", len(an.fa), 600, hard=True)
     run.extra["restore_pairs_recognised"] = n_pairs // 2    # informational only
     return an
 
@@ -859,7 +859,7 @@ def p1_restricted(run: Run, rule: str, prog: Program, origin_pred, what: str,
     # expected good case, so the floor is on the analysed functions instead
     run.extra.setdefault("hosted_purity", {})[rule] = {
         "what": what, "edit_or_pass_sites": n, "functions_analysed": len(an.fa)}
-    run.floor(f"{rule} functions analysed for {what}", len(an.fa), 600)
+    run.floor(f"{rule} functions analysed for {what}", len(an.fa), 600, hard=True)
     if n == 0:
         run.oblige(rule, f"no-inplace-edit-of:{what}", True, nontrivial=True,
                    sample={"functions_analysed": len(an.fa)})
